@@ -66,6 +66,9 @@ var (
 	cBarrier  = flag.String("barrier", "", "internal: wait for this file to exist before compiling")
 	cJobs     = flag.String("jobs", "", "internal: batch job file")
 	cCPU      = flag.String("cpu", "", "internal: play another machine (noabm = this CPU without ABM)")
+	cLimit    = flag.Int("limit", 0, "internal: RuntimeConfig.WithMemoryLimitPages (0 = default)")
+	cCFM      = flag.Bool("cfm", false, "internal: RuntimeConfig.WithMemoryCapacityFromMax(true)")
+	cNoDebug  = flag.Bool("nodebug", false, "internal: RuntimeConfig.WithDebugInfoEnabled(false)")
 )
 
 var (
@@ -108,6 +111,15 @@ func runOnce(dir string, mod []byte, kind, engine string, noexec bool) (res RunR
 		}
 		defer cache.Close(ctx)
 		cfg = cfg.WithCompilationCache(cache)
+	}
+	if *cLimit > 0 {
+		cfg = cfg.WithMemoryLimitPages(uint32(*cLimit))
+	}
+	if *cCFM {
+		cfg = cfg.WithMemoryCapacityFromMax(true)
+	}
+	if *cNoDebug {
+		cfg = cfg.WithDebugInfoEnabled(false)
 	}
 	rt := wazero.NewRuntimeWithConfig(ctx, cfg.WithCoreFeatures(api.CoreFeaturesV2|experimental.CoreFeaturesThreads|experimental.CoreFeaturesTailCall))
 	defer rt.Close(ctx)
@@ -427,6 +439,14 @@ func smallModule() []byte {
 		Body: wb.Cat(wb.LocalGet(0), wb.I32Const(0xfff0), wb.Op(wasm.OpcodeI32And), wb.LocalGet(1),
 			wb.MemArg(wasm.OpcodeI32Store, 2, 0),
 			wb.LocalGet(0), wb.I32Const(0xfff0), wb.Op(wasm.OpcodeI32And), wb.MemArg(wasm.OpcodeI32Load, 2, 0))})
+	// memory accesses on both sides of a call and of a memory.grow (what the code caches about the memory across them
+	// depends on what the compiler believes about the memory's limits - which a configuration knob can change)
+	m.AddFunc(wb.Func{Params: []byte{wb.I32, wb.I32}, Results: []byte{wb.I32}, Export: "memcall",
+		Body: wb.Cat(wb.I32Const(16), wb.LocalGet(1), wb.MemArg(wasm.OpcodeI32Store, 2, 0),
+			wb.LocalGet(0), wb.I32Const(7), wb.Op(wasm.OpcodeI32And), wb.Call(1), wb.Op(wasm.OpcodeDrop),
+			wb.I32Const(20), wb.I32Const(16), wb.MemArg(wasm.OpcodeI32Load, 2, 0), wb.MemArg(wasm.OpcodeI32Store, 2, 0),
+			wb.I32Const(0), wb.MemoryGrow(), wb.Op(wasm.OpcodeDrop),
+			wb.I32Const(20), wb.MemArg(wasm.OpcodeI32Load, 2, 0))})
 	return m.Bytes()
 }
 
@@ -1679,7 +1699,7 @@ func main() {
 	for _, m := range mods {
 		if okMods[m] {
 			m := m
-			par(func() { m.determinism(procs); m.crossExecutable(); m.otherMachine() })
+			par(func() { m.determinism(procs); m.crossExecutable(); m.otherMachine(); m.otherSettings() })
 		}
 	}
 	wg.Wait()
